@@ -467,6 +467,17 @@ where
         )),
     };
     let mut g = ch.0.lock().unwrap_or_else(|e| e.into_inner());
+    if g.want_desc && g.desc.is_none() {
+        // no description from the harness: render the choice list itself
+        let mut s = String::from("choices:");
+        for p in g.trace.iter().take(64) {
+            s.push_str(&format!(" {}={}/{}", p.label, p.taken, p.arity));
+        }
+        if g.trace.len() > 64 {
+            s.push_str(&format!(" …(+{})", g.trace.len() - 64));
+        }
+        g.desc = Some(s);
+    }
     RunResult {
         trace: std::mem::take(&mut g.trace),
         log: g.log.finish() ^ g.log_len,
